@@ -379,9 +379,7 @@ func (s *Storage) Get(gi *GetInput) (*GetOutput, error) {
 		}
 		lastSegment = st
 
-		tl.PopulateTimeline(st)
-
-		st.Get(gi.StartTime, gi.EndTime, func(depth int, samples, writes uint64, t time.Time, r *big.Rat) {
+		st.GetWithTimeline(tl, gi.StartTime, gi.EndTime, func(depth int, samples, writes uint64, t time.Time, r *big.Rat) {
 			key := parsedKey.TreeKey(depth, t)
 			res, err := s.trees.Get(key)
 			if err != nil {
